@@ -7,14 +7,18 @@
 //!     world k listens on `unix:%D/s<k>.sock`; the resolver (interface org.varlink.resolver with the
 //!               given table; the j-th Resolve call answers address min(j, last) of the entry) on
 //!               `unix:%D/resolver.sock`, passed with `--resolver`
-//!     client  = pipelined | stepwise | closeearly
-//!     item    = (rq b<frame>) | (payload b<chunk>*)      payload: raw bytes after an upgrading request
+//!     client  = pipelined | stepwise | closeearly | svcexit
+//!               svcexit (modes activate / bridgecmd): like pipelined, but instead of closing its side the
+//!               client waits while the harness kills the service process: the bridge must stop by itself
+//!     item    = (rq b<frame>) | (payload b<chunk>*) | (tail b<bytes>)
+//!               payload: raw bytes after an upgrading request; tail (closeearly only): bytes written
+//!               after the last NUL-terminated request, i.e. an unterminated last message
 //!     dec     = what serde_json says about each frame (as in the wire suite)
 //!   (raceprobe <n>)   n sessions of one call whose service replies and immediately closes
 //!
 //! Observation:
 //!   (obs (bridged (out <reply>*) b<raw> <end>) (exit <code|sig<n>|timeout>)
-//!        (direct (<k> (out <reply>*) b<raw>)*) (log <-| (bridged (<k> <req>*)*) (direct (<k> <req>*)*)>)
+//!        (direct (<k> (out <reply>*) b<raw> <open|closed>)*) (log <-| (bridged (<k> <req>*)*) (direct (<k> <req>*)*)>)
 //!        (upseen b<bridged> b<direct>))        (log / upseen: `-` unless the mode is resolver or bridge2)
 //!     a payload is written in the same write as the requests only by a pipelined client in the modes
 //!     resolver / bridge2 (there the bridge forwards the upgrading request on its own); otherwise it
@@ -45,8 +49,8 @@ use std::time::{Duration, Instant};
 pub struct ProxySuite;
 
 pub const SENTINEL_IFACE: &str = "zz.sentinel";
-const STEP_WAIT: Duration = Duration::from_millis(1500);
-const EXIT_WAIT: Duration = Duration::from_millis(2500);
+const STEP_WAIT: Duration = Duration::from_millis(4000);
+const EXIT_WAIT: Duration = Duration::from_millis(4000);
 
 fn resolver_world(table: &[(String, Vec<String>)]) -> WorldSpec {
     WorldSpec {
@@ -64,6 +68,7 @@ struct ProxyCase {
     client: String,
     frames: Vec<Vec<u8>>,
     payload: Option<Vec<Vec<u8>>>,
+    tail: Vec<u8>,
 }
 
 fn parse_case(l: &[Sx]) -> ProxyCase {
@@ -75,15 +80,17 @@ fn parse_case(l: &[Sx]) -> ProxyCase {
     }
     let mut frames = Vec::new();
     let mut payload = None;
+    let mut tail = Vec::new();
     for it in &l[5].as_list().unwrap()[1..] {
         let it = it.as_list().unwrap();
         match it[0].as_atom().unwrap() {
             "rq" => frames.push(it[1].as_bytes().unwrap()),
             "payload" => payload = Some(it[1..].iter().map(|c| c.as_bytes().unwrap()).collect()),
+            "tail" => tail = it[1].as_bytes().unwrap(),
             other => panic!("item {}", other),
         }
     }
-    ProxyCase { mode: l[1].clone(), worlds, rtable, client: l[4].as_atom().unwrap().to_string(), frames, payload }
+    ProxyCase { mode: l[1].clone(), worlds, rtable, client: l[4].as_atom().unwrap().to_string(), frames, payload, tail }
 }
 
 // ---------------------------------------------------------------------------
@@ -323,6 +330,7 @@ fn drive<W: Write>(
     client: &str,
     use_sentinel: bool,
     pipeline_payload: bool,
+    tail: &[u8],
 ) -> SessionResult {
     let nonce = format!("n{}", std::process::id());
     let ends_upgraded = frames.last().map(|f| frame_flags(f).1).unwrap_or(false);
@@ -385,6 +393,9 @@ fn drive<W: Write>(
                 all.extend_from_slice(&sentinel_frame(&nonce));
                 all.push(0);
             }
+            if client == "closeearly" {
+                all.extend_from_slice(tail);
+            }
             write(w, &all);
         }
     }
@@ -421,7 +432,12 @@ fn drive<W: Write>(
                 timed_out = !coll.is_eof();
             }
         }
-        // no sentinel possible: wait for quiescence
+        // no sentinel possible: when the payload went out after the upgrade was acknowledged the echo
+        // service answers byte for byte, so the length to wait for is known; then quiescence
+        if let (Some(b0), Some(chunks), false) = (boundary, payload.as_ref(), pipeline_payload) {
+            let want_len = b0 + chunks.iter().map(|c| c.len()).sum::<usize>();
+            coll.wait(STEP_WAIT, |b| b.len() >= want_len);
+        }
         coll.settle(Duration::from_millis(150), STEP_WAIT);
         end = if timed_out {
             "timeout"
@@ -503,7 +519,36 @@ fn log_sx(h: &ServiceHandle, from: usize) -> (Vec<Sx>, usize) {
     (v, calls.len())
 }
 
-fn settle_logs(handles: &[ServiceHandle]) {
+/// wait until the services have logged `want` calls (all forwarded calls are known to be on their way)
+fn wait_logged(handles: &[ServiceHandle], want: usize) {
+    let t0 = Instant::now();
+    loop {
+        let n: usize = handles.iter().map(|h| h.calls.lock().unwrap().iter().filter(|c| c.as_list().unwrap()[0].as_str().as_deref() != Some(SENTINEL_IFACE)).count()).sum();
+        if n >= want || t0.elapsed() > Duration::from_millis(2000) {
+            return;
+        }
+        std::thread::sleep(Duration::from_millis(2));
+    }
+}
+
+fn script_names(w: &WorldSpec) -> Vec<String> {
+    let l = w.svc.as_list().unwrap();
+    l[5].as_list().unwrap()[1..]
+        .iter()
+        .filter_map(|i| {
+            let il = i.as_list()?;
+            let k = il[0].as_atom()?;
+            if k == "script" || k == "script-avail" {
+                il[1].as_str()
+            } else {
+                None
+            }
+        })
+        .filter(|n| n != SENTINEL_IFACE)
+        .collect()
+}
+
+fn settle_logs(handles: &[ServiceHandle], quiet_ms: u64) {
     let total = |hs: &[ServiceHandle]| -> usize { hs.iter().map(|h| h.calls.lock().unwrap().len() + h.up_seen.lock().unwrap().len()).sum() };
     let mut last = total(handles);
     let mut since = Instant::now();
@@ -515,7 +560,7 @@ fn settle_logs(handles: &[ServiceHandle]) {
             last = n;
             since = Instant::now();
         }
-        if since.elapsed() > Duration::from_millis(40) || t0.elapsed() > Duration::from_millis(500) {
+        if since.elapsed() > Duration::from_millis(quiet_ms) || t0.elapsed() > Duration::from_millis(800) {
             return;
         }
     }
@@ -524,10 +569,12 @@ fn settle_logs(handles: &[ServiceHandle]) {
 struct DirectRun {
     out: Vec<u8>,
     raw: Vec<u8>,
+    /// did the service still answer a call appended after the session (`open`) or had it closed the connection?
+    end: &'static str,
 }
 
 /// one direct connection: the frames, then (after the replies are in) the payload, then half-close
-fn direct_run(address: &str, frames: &[Vec<u8>], payload: &Option<Vec<Vec<u8>>>) -> Option<DirectRun> {
+fn direct_run(address: &str, frames: &[Vec<u8>], payload: &Option<Vec<Vec<u8>>>, is_resolver: bool) -> Option<DirectRun> {
     let mut stream = connect_retry(address, Duration::from_secs(2))?;
     let (r, mut w) = stream.split().ok()?;
     let coll = Collector::start(r);
@@ -537,6 +584,22 @@ fn direct_run(address: &str, frames: &[Vec<u8>], payload: &Option<Vec<Vec<u8>>>)
     for f in frames {
         all.extend_from_slice(f);
         all.push(0);
+    }
+    // a last call whose reply is recognisable: is the connection still served after the session?
+    let nonce = format!("d{}", std::process::id());
+    let needle: String;
+    if is_resolver {
+        needle = format!("\"interface\":\"zz.probe.{}\"", nonce);
+        if !ends_upgraded {
+            all.extend_from_slice(&serde_json::to_vec(&json!({"method":"org.varlink.resolver.Resolve","parameters":{"interface":format!("zz.probe.{}", nonce)}})).unwrap());
+            all.push(0);
+        }
+    } else {
+        needle = format!("\"sentinel\":\"{}\"", nonce);
+        if !ends_upgraded {
+            all.extend_from_slice(&sentinel_frame(&nonce));
+            all.push(0);
+        }
     }
     let _ = w.write_all(&all);
     let _ = w.flush();
@@ -580,8 +643,22 @@ fn direct_run(address: &str, frames: &[Vec<u8>], payload: &Option<Vec<Vec<u8>>>)
         std::thread::sleep(Duration::from_millis(1));
     }
     let b = coll.snapshot();
-    let cut = boundary.unwrap_or(b.len());
-    Some(DirectRun { out: b[..cut].to_vec(), raw: b[cut..].to_vec() })
+    if ends_upgraded {
+        let cut = boundary.unwrap_or(b.len());
+        return Some(DirectRun { out: b[..cut].to_vec(), raw: b[cut..].to_vec(), end: "open" });
+    }
+    // cut the probe's reply out
+    let (out, seen) = match find_sub(&b, needle.as_bytes()) {
+        None => (b.clone(), false),
+        Some(p) => {
+            let start = b[..p].iter().rposition(|x| *x == 0).map(|i| i + 1).unwrap_or(0);
+            let end = b[p..].iter().position(|x| *x == 0).map(|i| p + i + 1).unwrap_or(b.len());
+            let mut v = b[..start].to_vec();
+            v.extend_from_slice(&b[end..]);
+            (v, true)
+        }
+    };
+    Some(DirectRun { out, raw: Vec::new(), end: if seen { "open" } else { "closed" } })
 }
 
 fn run_proxy(ctx: &Ctx, l: &[Sx]) -> Sx {
@@ -641,10 +718,31 @@ fn run_proxy(ctx: &Ctx, l: &[Sx]) -> Sx {
 
     let direct_mode = tag == "connect" || tag == "activate" || tag == "bridgecmd";
     let pipeline_payload = c.client == "pipelined" && (tag == "resolver" || tag == "bridge2");
-    let res = drive(&mut stdin, &coll, &c.frames, &c.payload, &c.client, true, pipeline_payload);
-    // the client closes its side
-    drop(stdin);
-    let st = guard.wait_timeout(EXIT_WAIT);
+    let res = drive(&mut stdin, &coll, &c.frames, &c.payload, &c.client, true, pipeline_payload, &c.tail);
+    let st = if c.client == "svcexit" {
+        // the service goes away while the client keeps its side open: the bridge must stop by itself
+        for f in &extra_pid_files {
+            if let Some(d) = read_dump(f, Duration::from_millis(500)) {
+                if let Some(p) = d["pid"].as_i64() {
+                    if p > 1 {
+                        unsafe {
+                            libc::kill(p as i32, libc::SIGKILL);
+                        }
+                    }
+                }
+            }
+        }
+        let st = guard.wait_timeout(EXIT_WAIT);
+        drop(stdin);
+        if st.is_none() {
+            let _ = guard.wait_timeout(Duration::from_millis(500));
+        }
+        st // None is reported as `timeout`: the bridge outlived its service
+    } else {
+        // the client closes its side
+        drop(stdin);
+        guard.wait_timeout(EXIT_WAIT)
+    };
     // grandchildren (the activated / bridge-command service) are not killed by anybody else
     for f in &extra_pid_files {
         if let Some(d) = read_dump(f, Duration::from_millis(if st.is_some() { 50 } else { 500 })) {
@@ -671,8 +769,25 @@ fn run_proxy(ctx: &Ctx, l: &[Sx]) -> Sx {
         (b[..cut].to_vec(), b[cut..].to_vec())
     };
 
-    // what the services saw through the bridge
-    settle_logs(&handles);
+    // what the services saw through the bridge (a oneway call is executed some time after it was forwarded)
+    let quiet_ms = if c.frames.iter().any(|f| frame_flags(f).0) { 120 } else { 25 };
+    let routes = route_all(&c, &sub);
+    if res.end == "open" && !direct_mode {
+        // every request was forwarded: the number of calls the scripted interfaces will log is known
+        let want = routes
+            .iter()
+            .filter(|(t, f)| match t {
+                Target::Svc(k) => serde_json::from_slice::<varlink::Request>(f)
+                    .ok()
+                    .and_then(|r| r.method.rfind('.').map(|n| r.method[..n].to_string()))
+                    .map(|i| script_names(&c.worlds[*k]).contains(&i))
+                    .unwrap_or(false),
+                Target::Resolver => false,
+            })
+            .count();
+        wait_logged(&handles, want);
+    }
+    settle_logs(&handles, quiet_ms);
     let mut marks = Vec::new();
     let mut blog = Vec::new();
     for (k, h) in handles.iter().enumerate() {
@@ -688,7 +803,6 @@ fn run_proxy(ctx: &Ctx, l: &[Sx]) -> Sx {
     let up_marks: Vec<usize> = handles.iter().map(|h| h.up_seen.lock().unwrap().len()).collect();
 
     // the direct runs
-    let routes = route_all(&c, &sub);
     let nsvc = c.worlds.len();
     let mut direct = Vec::new();
     for t in 0..=nsvc {
@@ -700,13 +814,13 @@ fn run_proxy(ctx: &Ctx, l: &[Sx]) -> Sx {
         let address = if t == nsvc { resolver_addr.clone() } else { service_address(&sub, t) };
         // the payload belongs to the service the last (upgrading) request goes to
         let pl = if routes.last().map(|r| r.0 == target).unwrap_or(false) { c.payload.clone() } else { None };
-        let r = direct_run(&address, &mine, &pl);
+        let r = direct_run(&address, &mine, &pl, t == nsvc);
         direct.push(match r {
-            Some(d) => sx::list(vec![sx::nat(t), sx::tagged("out", wire::split_replies(&d.out)), sx::bs(&d.raw)]),
-            None => sx::list(vec![sx::nat(t), sx::tagged("fail", vec![]), sx::bs(&[])]),
+            Some(d) => sx::list(vec![sx::nat(t), sx::tagged("out", wire::split_replies(&d.out)), sx::bs(&d.raw), sx::atom(d.end)]),
+            None => sx::list(vec![sx::nat(t), sx::tagged("fail", vec![]), sx::bs(&[]), sx::atom("closed")]),
         });
     }
-    settle_logs(&handles);
+    settle_logs(&handles, quiet_ms);
     let mut dlog = Vec::new();
     for (k, h) in handles.iter().enumerate() {
         let (v, _) = log_sx(h, marks[k]);
@@ -970,7 +1084,7 @@ fn gen_hard_request(rng: &mut Rng, gw: &GenWorld, tok: &str, tags: &mut Vec<Stri
         }
         6 => {
             tags.push("hard:abort-delayed".into());
-            json!({"method":"org.example.abort.ReplyThenAbort","parameters":{"delay_ms":60,"token":tok}})
+            json!({"method":"org.example.abort.ReplyThenAbort","parameters":{"delay_ms":300,"token":tok}})
         }
         _ => {
             tags.push("hard:getdesc-unknown".into());
@@ -1021,6 +1135,9 @@ impl Suite for ProxySuite {
             let mtag = mode_tag(&mode);
             tags.push(format!("mode:{}", mtag));
             let mut client = *rng.pick(&["pipelined", "pipelined", "stepwise", "stepwise", "closeearly"]);
+            if (mtag == "activate" || mtag == "bridgecmd") && rng.chance(1, 5) {
+                client = "svcexit";
+            }
             let len = match rng.below(8) {
                 0 => 0,
                 1..=2 => 1,
